@@ -1,2 +1,14 @@
 #!/bin/sh
-exit 0
+# Builds /verif/.venv offline: python 3.12 (from /venv) + solver/contract tooling from the wheelhouse,
+# with a .pth so that pytezos and its dependencies (installed in /venv, editable -> /repo/src) import.
+set -e
+cd "$(dirname "$0")"
+if [ -x .venv/bin/python ] && .venv/bin/python -c "import z3, cvc5, jsonschema, pytezos" 2>/dev/null; then
+  echo "setup: .venv present"; exit 0
+fi
+rm -rf .venv
+/venv/bin/python -m venv .venv
+PIP_NO_INDEX=1 .venv/bin/python -m pip install -q --no-index --find-links /opt/veriftools/wheels \
+    z3-solver cvc5 jsonschema hypothesis icontract deal crosshair-tool 2>&1 | grep -v WARNING || true
+echo "import site; site.addsitedir('/venv/lib/python3.12/site-packages')" > .venv/lib/python3.12/site-packages/zz_overlay.pth
+.venv/bin/python -c "import z3, cvc5, jsonschema, pytezos; print('setup ok: z3', z3.get_version_string())"
